@@ -19,6 +19,7 @@ import (
 	"context"
 	"encoding/json"
 	"fmt"
+	"math/bits"
 	"os"
 	"sort"
 	"strconv"
@@ -225,6 +226,11 @@ type c15World struct {
 	deletedWithNamespacePods         int
 	staleSharedWeightNotAsserted     int
 	rootIndexStale                   int
+	reparentRejected                 int
+	treeIDEdgeDiffers                int
+	style                            c15Style
+	dumpCache                        string
+	lastReparentAttemptWithKids      bool
 }
 
 // c15Client is the "fake client whose pod list is part of the generated state": a client.Client that answers exactly the
@@ -388,6 +394,8 @@ func c15WhyRejected(stage string, err error) string {
 		return "tree-id"
 	case has("isParent is forbidden"):
 		return "is-parent-change"
+	case has("itself or one of its descendants"): // wording of the proposed fix
+		return "parent-is-self-or-descendant"
 	case has("not find parentInfo") || has("IsParent is false"):
 		return "parent-missing-or-not-parent"
 	case has("checkSubAndParentGroupQuotaKey"):
@@ -403,7 +411,11 @@ func c15WhyRejected(stage string, err error) string {
 // do sends one request through the real admission order, keeps the model in step and evaluates the oracle.
 // It returns whether the webhook accepted, and (sig,msg) != "" for an oracle failure.
 func (w *c15World) do(r c15Req) (accepted bool, sig, msg string) {
-	before := c15Dump(w.qt)
+	before := w.dumpCache // valid while nothing touched the record since it was taken (rejected requests leave it equal)
+	if before == "" {
+		before = c15Dump(w.qt)
+	}
+	w.dumpCache = ""
 	var err error
 	var stored *v1alpha1.ElasticQuota
 	var oldQ *c15Q
@@ -437,14 +449,22 @@ func (w *c15World) do(r c15Req) (accepted bool, sig, msg string) {
 		panic("c15: unknown request kind")
 	}
 	w.lastWasParentChange = false
+	w.lastReparentAttemptWithKids = false
+	if r.Kind == "update" && c15Derive(r.Obj).parent != oldQ.parent && len(w.children(r.Name)) > 0 {
+		w.lastReparentAttemptWithKids = true
+	}
 	if err != nil {
 		why := c15WhyRejected(stage, err)
 		w.hist = append(w.hist, line+" -> REJECTED("+why+")")
 		w.rejected[r.Kind]++
 		w.rejWhy[why]++
+		if r.Kind == "update" && c15Derive(r.Obj).parent != oldQ.parent {
+			w.reparentRejected++
+		}
 		if after := c15Dump(w.qt); after != before {
 			return false, "rejected:record-changed", fmt.Sprintf("request %q was rejected (%v) but the recorded topology changed\n--- before\n%s--- after\n%s", line, err, before, after)
 		}
+		w.dumpCache = before
 		return false, "", ""
 	}
 	w.accepted[r.Kind]++
@@ -661,6 +681,9 @@ func (w *c15World) check() (string, string) {
 		if !p.isParent {
 			return "tree:parent-not-marked-parent", fmt.Sprintf("quota %s hangs under %s which is not marked is-parent", n, q.parent)
 		}
+		if p.treeID != q.treeID {
+			w.treeIDEdgeDiffers++ // the statement does not speak about tree ids: counted only
+		}
 		if c15Keys(q.max) != c15Keys(p.max) {
 			return "tree:max-dimensions-differ-along-edge", fmt.Sprintf("quota %s max dimensions [%s] differ from its parent %s's [%s]", n, c15Keys(q.max), p.name, c15Keys(p.max))
 		}
@@ -705,21 +728,75 @@ func (w *c15World) histStr() string { return "\n  " + strings.Join(w.hist, "\n  
 
 // ---------------------------------------------------------------- rapid generators
 
+// rapid biases every integer / SampledFrom draw towards small values and the range ends (good for shrinking, but a
+// "1 in 40" branch at index 0 fires 11 % of the time, and the first action name of t.Repeat is chosen far more often than
+// the last). All WEIGHT decisions therefore go through c15U, a uniform draw assembled from unbiased rapid.Bool bits; it
+// still shrinks towards 0, so the plainest alternative of every switch sits at 0.
+func c15U(t *rapid.T, n int, label string) int {
+	if n <= 1 {
+		return 0
+	}
+	return rapid.Custom(func(t *rapid.T) int {
+		nbits := bits.Len(uint(n - 1))
+		for tries := 0; ; tries++ {
+			v := 0
+			for i := nbits - 1; i >= 0; i-- {
+				if rapid.Bool().Draw(t, "bit") {
+					v |= 1 << i
+				}
+			}
+			if v < n {
+				return v
+			}
+			if tries >= 6 {
+				return v % n
+			}
+		}
+	}).Draw(t, label)
+}
+
+func c15Pick[T any](t *rapid.T, xs []T, label string) T { return xs[c15U(t, len(xs), label)] }
+
+// c15Style is drawn once per case: the dimensions / tree id most quotas of the case use, so that moving a quota under
+// another parent is often compatible (otherwise nearly every parent change dies on "keys differ" / "tree id differs").
+type c15Style struct {
+	keys []string
+	tree string
+}
+
+func c15GenStyle(t *rapid.T) c15Style {
+	var st c15Style
+	switch c15U(t, 10, "styleKeys") {
+	case 9:
+		st.keys = nil
+	case 7, 8:
+		st.keys = []string{"memory"}
+	case 4, 5, 6:
+		st.keys = []string{"cpu", "memory"}
+	default:
+		st.keys = []string{"cpu"}
+	}
+	if c15U(t, 4, "styleTree") == 3 {
+		st.tree = "t1"
+	}
+	return st
+}
+
 func c15GenQty(t *rapid.T, label string) int64 {
-	switch rapid.IntRange(0, 19).Draw(t, label+"Kind") {
-	case 0:
+	switch c15U(t, 100, label+"Kind") {
+	case 96, 97:
 		return 1500
-	case 1:
+	case 98:
 		return int64(1) << 40 * 1000
-	case 2:
+	case 99:
 		return -1000
 	default:
-		return int64(rapid.IntRange(0, 6).Draw(t, label)) * 1000
+		return int64(c15U(t, 7, label)) * 1000
 	}
 }
 
 func c15GenKeys(t *rapid.T, label string) []string {
-	switch rapid.IntRange(0, 9).Draw(t, label) {
+	switch c15U(t, 10, label) {
 	case 0:
 		return nil
 	case 1, 2:
@@ -732,7 +809,7 @@ func c15GenKeys(t *rapid.T, label string) []string {
 }
 
 func c15GenNS(t *rapid.T, w *c15World, self string) (set bool, ns []string) {
-	switch rapid.IntRange(0, 9).Draw(t, "nsMode") {
+	switch c15U(t, 10, "nsMode") {
 	case 0, 1, 2, 3, 4:
 		return false, nil
 	case 5:
@@ -747,9 +824,9 @@ func c15GenNS(t *rapid.T, w *c15World, self string) (set bool, ns []string) {
 		}
 	}
 	n := rapid.IntRange(1, 2).Draw(t, "nsCount")
-	preferFree := rapid.IntRange(0, 3).Draw(t, "nsPreferFree") > 0
+	preferFree := c15U(t, 4, "nsPreferFree") > 0
 	for i := 0; i < n; i++ {
-		c := rapid.SampledFrom(c15NSs).Draw(t, "ns")
+		c := c15Pick(t, c15NSs, "ns")
 		if preferFree && taken[c] {
 			for _, alt := range c15NSs {
 				if !taken[alt] {
@@ -764,15 +841,15 @@ func c15GenNS(t *rapid.T, w *c15World, self string) (set bool, ns []string) {
 }
 
 func c15GenSharedWeight(t *rapid.T, o *v1alpha1.ElasticQuota) {
-	switch rapid.IntRange(0, 19).Draw(t, "swMode") {
-	case 0:
+	switch c15U(t, 40, "swMode") {
+	case 39:
 		o.Annotations[c15ASharedW] = "{not json"
-	case 1:
+	case 38:
 		o.Annotations[c15ASharedW] = `{"cpu":"-1"}`
-	case 2, 3:
-		b, _ := json.Marshal(c15RL(map[string]int64{"cpu": int64(rapid.IntRange(0, 4).Draw(t, "swCPU")) * 1000}))
+	case 35, 36, 37:
+		b, _ := json.Marshal(c15RL(map[string]int64{"cpu": int64(c15U(t, 5, "swCPU")) * 1000}))
 		o.Annotations[c15ASharedW] = string(b)
-	case 4:
+	case 34:
 		b, _ := json.Marshal(c15RL(map[string]int64{"cpu": 1000, "memory": 2000, "nvidia.com/gpu": 1000}))
 		o.Annotations[c15ASharedW] = string(b)
 	}
@@ -784,6 +861,51 @@ func (w *c15World) parents() []string { // admitted quotas marked is-parent
 		if w.model[n].isParent && n != c15Root {
 			out = append(out, n)
 		}
+	}
+	return out
+}
+
+// selfAndDescendants of an admitted quota (the model is acyclic as long as the case is alive; bounded anyway)
+func (w *c15World) selfAndDescendants(name string) map[string]bool {
+	out := map[string]bool{name: true}
+	for round := 0; round <= len(w.model); round++ {
+		grew := false
+		for n, q := range w.model {
+			if !out[n] && out[q.parent] {
+				out[n] = true
+				grew = true
+			}
+		}
+		if !grew {
+			break
+		}
+	}
+	return out
+}
+
+// fittingParents lists other parents (and root) under which `name` would, by the harness's reading of the rules, be
+// admissible. Generator guidance only; the oracle never looks at it.
+func (w *c15World) fittingParents(name string) []string {
+	q := w.model[name]
+	below := w.selfAndDescendants(name)
+	var out []string
+	for _, p := range w.parents() {
+		pq := w.model[p]
+		if p == q.parent || below[p] || pq.treeID != q.treeID || c15Keys(pq.max) != c15Keys(q.max) {
+			continue
+		}
+		ok := true
+		for _, r := range vk.SortedKeys(q.min) {
+			if _, has := pq.min[r]; !has || q.min[r] > w.remaining(p, r, name) {
+				ok = false
+			}
+		}
+		if ok {
+			out = append(out, p)
+		}
+	}
+	if q.parent != c15Root && name != c15Root {
+		out = append(out, c15Root)
 	}
 	return out
 }
@@ -803,14 +925,19 @@ func c15PickAround(t *rapid.T, bound int64, label string) int64 {
 	if bound < 0 {
 		bound = 0
 	}
-	switch rapid.IntRange(0, 5).Draw(t, label+"Pick") {
-	case 0:
+	switch c15U(t, 8, label+"Pick") {
+	case 0, 1:
 		return 0
-	case 1, 2:
-		return bound
+	case 2:
+		if bound >= 1000 {
+			return 1000
+		}
+		return 0
 	case 3:
-		return bound + 1000
+		return bound
 	case 4:
+		return bound + 1000
+	case 5:
 		if bound >= 1000 {
 			return bound - 1000
 		}
@@ -820,12 +947,12 @@ func c15PickAround(t *rapid.T, bound int64, label string) int64 {
 	}
 }
 
-// c15GenCreate: a fresh object. Mostly constructed so that it has a chance to pass (parent that exists and is a parent,
-// same dimensions, min inside the remaining budget or exactly at / one above the boundary), sometimes arbitrary.
-func c15GenCreate(t *rapid.T, w *c15World) *v1alpha1.ElasticQuota {
+// c15GenCreate: a fresh object. under != "": constructed below that admitted parent (same dimensions, min inside the
+// remaining budget or exactly at / one above the boundary). Otherwise a top-level or arbitrary object.
+func c15GenCreate(t *rapid.T, w *c15World, under string) *v1alpha1.ElasticQuota {
 	var name string
-	if rapid.IntRange(0, 9).Draw(t, "nameMode") == 0 {
-		name = rapid.SampledFrom(c15Names).Draw(t, "name") // possibly an existing one
+	if c15U(t, 12, "nameMode") == 11 {
+		name = c15Pick(t, c15Names, "name") // possibly a stored one
 	} else {
 		var free []string
 		for _, n := range c15Names {
@@ -836,95 +963,107 @@ func c15GenCreate(t *rapid.T, w *c15World) *v1alpha1.ElasticQuota {
 		if len(free) == 0 {
 			free = c15Names
 		}
-		name = rapid.SampledFrom(free).Draw(t, "name")
+		name = c15Pick(t, free, "name")
 	}
 	o := c15NewObj(name)
-	parents := w.parents()
 	parent := ""
-	mode := rapid.IntRange(0, 9).Draw(t, "parentMode")
-	switch {
-	case mode == 0: // label absent -> the mutating webhook fills in root
-	case mode <= 2:
-		parent = c15Root
-		o.Labels[c15LParent] = c15Root
-	case mode <= 7 && len(parents) > 0:
-		parent = rapid.SampledFrom(parents).Draw(t, "parent")
-		o.Labels[c15LParent] = parent
-	case mode <= 7:
-		parent = c15Root
-		o.Labels[c15LParent] = c15Root
-	default: // anything: missing quota, itself, a leaf quota
-		parent = rapid.SampledFrom(append(append([]string{}, c15Names...), c15Default)).Draw(t, "parentAny")
-		o.Labels[c15LParent] = parent
+	if under != "" {
+		parent = under
+		o.Labels[c15LParent] = under
+	} else {
+		mode := c15U(t, 12, "parentMode")
+		switch {
+		case mode <= 2: // label absent -> the mutating webhook fills in root
+		case mode <= 10:
+			parent = c15Root
+			o.Labels[c15LParent] = c15Root
+		default: // anything: missing quota, itself, a leaf quota
+			parent = c15Pick(t, append(append([]string{}, c15Names...), c15Default), "parentAny")
+			o.Labels[c15LParent] = parent
+		}
 	}
-	switch rapid.IntRange(0, 9).Draw(t, "isParent") {
-	case 0:
-	case 1, 2, 3:
+	isParent := false
+	switch c15U(t, 10, "isParent") {
+	case 9:
+	case 6, 7, 8:
 		o.Labels[c15LIsParent] = "false"
 	default:
 		o.Labels[c15LIsParent] = "true"
-	}
-	switch rapid.IntRange(0, 11).Draw(t, "tree") {
-	case 0:
-		o.Labels[c15LTreeID] = "t1"
-	case 1:
-		o.Labels[c15LTreeID] = "t2"
-	case 2:
-		o.Labels[c15LTreeID] = ""
-	case 3:
-		if p := w.model[parent]; p != nil {
-			o.Labels[c15LTreeID] = p.treeID
-		}
+		isParent = true
 	}
 	var pq *c15Q
 	if parent != c15Root {
 		pq = w.model[parent]
 	}
-	arbitrary := rapid.IntRange(0, 9).Draw(t, "arbitrarySpec") == 0
+	switch c15U(t, 12, "tree") {
+	case 8:
+		o.Labels[c15LTreeID] = "t1"
+	case 9:
+		o.Labels[c15LTreeID] = "t2"
+	case 10:
+		o.Labels[c15LTreeID] = ""
+	case 11:
+		if pq != nil {
+			o.Labels[c15LTreeID] = pq.treeID
+		}
+	default: // natural: inherit from the parent through the mutating webhook, or the style's tree at top level
+		if pq == nil && w.style.tree != "" {
+			o.Labels[c15LTreeID] = w.style.tree
+		}
+	}
+	arbitrary := c15U(t, 12, "arbitrarySpec") == 11
 	if pq != nil && !arbitrary {
 		maxM, minM := map[string]int64{}, map[string]int64{}
 		for _, r := range vk.SortedKeys(pq.max) {
 			maxM[r] = c15GenQty(t, "max_"+r)
 		}
 		for _, r := range vk.SortedKeys(pq.min) {
-			if _, ok := maxM[r]; !ok || rapid.IntRange(0, 4).Draw(t, "minSkip_"+r) == 0 {
+			if _, ok := maxM[r]; !ok || c15U(t, 6, "minSkip_"+r) == 0 {
 				continue
 			}
 			minM[r] = c15PickAround(t, w.remaining(parent, r, name), "min_"+r)
-			if minM[r] > maxM[r] && rapid.IntRange(0, 7).Draw(t, "liftMax_"+r) > 0 {
+			if minM[r] > maxM[r] && c15U(t, 12, "liftMax_"+r) > 0 {
 				maxM[r] = minM[r]
 			}
 		}
 		o.Spec.Max, o.Spec.Min = c15RL(maxM), c15RL(minM)
-		if len(minM) == 0 && rapid.Bool().Draw(t, "nilMin") {
+		if len(minM) == 0 && (c15U(t, 2, "nilMin") == 1) {
 			o.Spec.Min = nil
 		}
 	} else {
-		maxKeys := c15GenKeys(t, "maxKeys")
+		maxKeys := w.style.keys
+		if arbitrary || c15U(t, 6, "maxKeysFree") == 0 {
+			maxKeys = c15GenKeys(t, "maxKeys")
+		}
 		maxM := map[string]int64{}
 		for _, r := range maxKeys {
 			maxM[r] = c15GenQty(t, "max_"+r)
 		}
 		minKeys := maxKeys
-		if rapid.IntRange(0, 7).Draw(t, "minKeysFree") == 0 {
+		if c15U(t, 10, "minKeysFree") == 0 {
 			minKeys = c15GenKeys(t, "minKeys")
 		}
 		minM := map[string]int64{}
 		for _, r := range minKeys {
-			if rapid.IntRange(0, 5).Draw(t, "minSkip_"+r) == 0 {
+			if c15U(t, 8, "minSkip_"+r) == 0 {
 				continue
 			}
-			v := c15GenQty(t, "min_"+r)
-			if mx, ok := maxM[r]; ok && v > mx && rapid.IntRange(0, 7).Draw(t, "liftMax_"+r) > 0 {
+			var v int64
+			if isParent && c15U(t, 4, "roomyMin_"+r) > 0 {
+				v = int64(rapid.IntRange(2, 6).Draw(t, "min_"+r)) * 1000 // room for children
+			} else {
+				v = c15GenQty(t, "min_"+r)
+			}
+			if mx, ok := maxM[r]; ok && v > mx && c15U(t, 12, "liftMax_"+r) > 0 {
 				maxM[r] = v
 			}
 			minM[r] = v
 		}
 		o.Spec.Max, o.Spec.Min = c15RL(maxM), c15RL(minM)
-		if len(maxM) == 0 && rapid.Bool().Draw(t, "nilMax") {
+		if len(maxM) == 0 && (c15U(t, 2, "nilMax") == 1) {
 			o.Spec.Max = nil
 		}
-		if len(minM) == 0 && rapid.Bool().Draw(t, "nilMin") {
+		if len(minM) == 0 && (c15U(t, 2, "nilMin") == 1) {
 			o.Spec.Min = nil
 		}
 	}
@@ -932,6 +1071,25 @@ func c15GenCreate(t *rapid.T, w *c15World) *v1alpha1.ElasticQuota {
 		o.Annotations[c15ANamespaces] = c15NSJSON(ns)
 	}
 	c15GenSharedWeight(t, o)
+	return o
+}
+
+// c15GenSpecial: the three objects the scheduler plugin creates itself (plugin_helper.go create*QuotaIfNotPresent)
+func c15GenSpecial(t *rapid.T) *v1alpha1.ElasticQuota {
+	var o *v1alpha1.ElasticQuota
+	switch c15U(t, 3, "special") {
+	case 0:
+		o = c15NewObj(c15Root)
+		o.Labels[c15LIsParent], o.Labels[c15LAllowLent], o.Labels[c15LParent] = "true", "false", ""
+	case 1:
+		o = c15NewObj(c15System)
+		o.Labels = nil
+		o.Spec.Max = c15RL(map[string]int64{"cpu": 4000, "memory": 4000})
+	default:
+		o = c15NewObj(c15Default)
+		o.Labels = nil
+		o.Spec.Max = c15RL(map[string]int64{"cpu": 4000, "memory": 4000})
+	}
 	return o
 }
 
@@ -947,19 +1105,19 @@ func c15GenUpdate(t *rapid.T, w *c15World, name string) *v1alpha1.ElasticQuota {
 	}
 	edits := rapid.IntRange(1, 2).Draw(t, "edits")
 	for i := 0; i < edits; i++ {
-		switch rapid.SampledFrom([]string{"min", "min", "min", "max", "max", "isParent", "isParent", "ns", "parent", "tree", "sw", "noop", "dropMin", "maxKey", "lent"}).Draw(t, "edit") {
+		switch c15Pick(t, []string{"min", "min", "min", "min", "max", "max", "isParent", "isParent", "ns", "ns", "parent", "tree", "sw", "noop", "dropMin", "maxKey", "lent"}, "edit") {
 		case "min":
 			keys := vk.SortedKeys(c15Milli(o.Spec.Max))
-			if len(keys) == 0 || rapid.IntRange(0, 9).Draw(t, "minAnyKey") == 0 {
+			if len(keys) == 0 || c15U(t, 10, "minAnyKey") == 0 {
 				keys = c15Res
 			}
-			r := rapid.SampledFrom(keys).Draw(t, "minRes")
+			r := c15Pick(t, keys, "minRes")
 			var kidsSum int64
 			for _, k := range w.children(name) {
 				kidsSum += w.model[k].min[r]
 			}
 			var v int64
-			switch rapid.IntRange(0, 5).Draw(t, "minAim") {
+			switch c15U(t, 6, "minAim") {
 			case 0: // lower boundary: exactly what the children need
 				v = kidsSum
 			case 1:
@@ -980,12 +1138,12 @@ func c15GenUpdate(t *rapid.T, w *c15World, name string) *v1alpha1.ElasticQuota {
 				o.Spec.Min = corev1.ResourceList{}
 			}
 			o.Spec.Min[corev1.ResourceName(r)] = *resource.NewMilliQuantity(v, resource.DecimalSI)
-			if mx, ok := q.max[r]; ok && v > mx && rapid.IntRange(0, 3).Draw(t, "liftMax") > 0 {
+			if mx, ok := q.max[r]; ok && v > mx && c15U(t, 4, "liftMax") > 0 {
 				o.Spec.Max[corev1.ResourceName(r)] = *resource.NewMilliQuantity(v, resource.DecimalSI)
 			}
 		case "dropMin":
 			if len(o.Spec.Min) > 0 {
-				r := rapid.SampledFrom(vk.SortedKeys(c15Milli(o.Spec.Min))).Draw(t, "dropMinRes")
+				r := c15Pick(t, vk.SortedKeys(c15Milli(o.Spec.Min)), "dropMinRes")
 				delete(o.Spec.Min, corev1.ResourceName(r))
 			}
 		case "max":
@@ -993,14 +1151,14 @@ func c15GenUpdate(t *rapid.T, w *c15World, name string) *v1alpha1.ElasticQuota {
 			if len(keys) == 0 {
 				continue
 			}
-			r := rapid.SampledFrom(keys).Draw(t, "maxRes")
+			r := c15Pick(t, keys, "maxRes")
 			v := c15PickAround(t, q.min[r], "maxVal")
 			o.Spec.Max[corev1.ResourceName(r)] = *resource.NewMilliQuantity(v, resource.DecimalSI)
 		case "maxKey":
-			r := rapid.SampledFrom(c15Res).Draw(t, "maxKeyRes")
+			r := c15Pick(t, c15Res, "maxKeyRes")
 			if _, ok := o.Spec.Max[corev1.ResourceName(r)]; ok {
 				delete(o.Spec.Max, corev1.ResourceName(r))
-				if rapid.Bool().Draw(t, "dropMinToo") {
+				if (c15U(t, 2, "dropMinToo") == 1) {
 					delete(o.Spec.Min, corev1.ResourceName(r))
 				}
 			} else {
@@ -1011,7 +1169,7 @@ func c15GenUpdate(t *rapid.T, w *c15World, name string) *v1alpha1.ElasticQuota {
 			}
 		case "isParent":
 			if q.isParent {
-				if rapid.Bool().Draw(t, "dropLabel") {
+				if (c15U(t, 2, "dropLabel") == 1) {
 					delete(o.Labels, c15LIsParent)
 				} else {
 					o.Labels[c15LIsParent] = "false"
@@ -1028,12 +1186,12 @@ func c15GenUpdate(t *rapid.T, w *c15World, name string) *v1alpha1.ElasticQuota {
 		case "parent":
 			c15EditParent(t, w, name, o)
 		case "tree":
-			o.Labels[c15LTreeID] = rapid.SampledFrom([]string{"", "t1", "t2"}).Draw(t, "treeVal")
+			o.Labels[c15LTreeID] = c15Pick(t, []string{"", "t1", "t2"}, "treeVal")
 		case "sw":
 			delete(o.Annotations, c15ASharedW)
 			c15GenSharedWeight(t, o)
 		case "lent":
-			o.Labels[c15LAllowLent] = rapid.SampledFrom([]string{"true", "false"}).Draw(t, "lentVal")
+			o.Labels[c15LAllowLent] = c15Pick(t, []string{"true", "false"}, "lentVal")
 		case "noop":
 		}
 	}
@@ -1041,26 +1199,36 @@ func c15GenUpdate(t *rapid.T, w *c15World, name string) *v1alpha1.ElasticQuota {
 }
 
 // c15EditParent points the object at another parent: mostly an admitted is-parent quota different from the current
-// parent (this includes the quota itself and its own descendants), sometimes root / no label / anything.
+// parent; one time in eight the candidates include the quota itself and its own descendants; sometimes root / no label /
+// any name.
 func c15EditParent(t *rapid.T, w *c15World, name string, o *v1alpha1.ElasticQuota) {
 	q := w.model[name]
+	// constructed: a target under which, by the model, the quota fits (dimensions, tree id, min budget, not below itself)
+	if fit := w.fittingParents(name); len(fit) > 0 && c15U(t, 10, "newParentFits") < 6 {
+		o.Labels[c15LParent] = c15Pick(t, fit, "newParent")
+		return
+	}
+	avoid := map[string]bool{}
+	if c15U(t, 8, "allowSelfOrDescendant") < 7 {
+		avoid = w.selfAndDescendants(name)
+	}
 	var cands []string
 	for _, p := range w.parents() {
-		if p != q.parent {
+		if p != q.parent && !avoid[p] {
 			cands = append(cands, p)
 		}
 	}
 	if q.parent != c15Root {
 		cands = append(cands, c15Root)
 	}
-	mode := rapid.IntRange(0, 9).Draw(t, "newParentMode")
+	mode := c15U(t, 12, "newParentMode")
 	switch {
-	case mode <= 7 && len(cands) > 0:
-		o.Labels[c15LParent] = rapid.SampledFrom(cands).Draw(t, "newParent")
-	case mode == 8:
+	case mode <= 9 && len(cands) > 0:
+		o.Labels[c15LParent] = c15Pick(t, cands, "newParent")
+	case mode == 10:
 		delete(o.Labels, c15LParent)
 	default:
-		o.Labels[c15LParent] = rapid.SampledFrom(c15Names).Draw(t, "newParentAny")
+		o.Labels[c15LParent] = c15Pick(t, c15Names, "newParentAny")
 	}
 }
 
@@ -1074,10 +1242,12 @@ func (w *c15World) classes(c *vk.Case) {
 	}
 	c.ClassIf(w.reparentAcc > 0, "accepted-parent-change")
 	c.ClassIf(w.reparentWithKidsAcc > 0, "accepted-parent-change-of-quota-with-children")
+	c.ClassIf(w.reparentRejected > 0, "rejected-parent-change")
 	c.ClassIf(w.echoes > 0, "informer-event-delivered")
 	c.ClassIf(w.deletedWithNamespacePods > 0, "deleted-quota-with-namespace-bound-pods(not asserted)")
 	c.ClassIf(w.staleSharedWeightNotAsserted > 0, "update-of-shared-weight/allow-lent(record not asserted)")
 	c.ClassIf(w.rootIndexStale > 0, "root-child-index-forgot-quotas-after-root-create(not asserted)")
+	c.ClassIf(w.treeIDEdgeDiffers > 0, "tree-id-differs-along-edge(not asserted)")
 	depth := 0
 	for _, n := range vk.SortedKeys(w.model) {
 		d, cur := 0, n
@@ -1112,9 +1282,10 @@ func TestVerifC15History(t *testing.T) {
 		c := rec.Begin()
 		defer c.End()
 		w := c15NewWorld(nil)
+		w.style = c15GenStyle(t)
 		dead := false
 		send := func(t *rapid.T, r c15Req) {
-			r.Echo = rapid.IntRange(0, 3).Draw(t, "informerEcho") == 0
+			r.Echo = c15U(t, 4, "informerEcho") == 3
 			_, sig, msg := w.do(r)
 			if sig != "" {
 				if c.Violation(t, sig, "%s\nhistory:%s", msg, w.histStr()) {
@@ -1127,97 +1298,107 @@ func TestVerifC15History(t *testing.T) {
 			if len(names) == 0 {
 				t.Skip("nothing stored")
 			}
-			return rapid.SampledFrom(names).Draw(t, "target")
+			// the scheduler-owned objects are targeted less often than user quotas
+			var user []string
+			for _, n := range names {
+				if n != c15Root && n != c15System && n != c15Default {
+					user = append(user, n)
+				}
+			}
+			if len(user) > 0 && c15U(t, 8, "targetUser") > 0 {
+				return c15Pick(t, user, "target")
+			}
+			return c15Pick(t, names, "target")
 		}
+		create := func(t *rapid.T) {
+			if dead {
+				return
+			}
+			var o *v1alpha1.ElasticQuota
+			if c15U(t, 12, "createSpecial") == 11 {
+				o = c15GenSpecial(t)
+			} else {
+				o = c15GenCreate(t, w, "")
+			}
+			send(t, c15Req{Kind: "create", Name: o.Name, Obj: o})
+		}
+		createUnder := func(t *rapid.T) {
+			if dead {
+				return
+			}
+			parents := w.parents()
+			under := ""
+			if len(parents) > 0 {
+				under = c15Pick(t, parents, "under")
+			}
+			o := c15GenCreate(t, w, under)
+			send(t, c15Req{Kind: "create", Name: o.Name, Obj: o})
+		}
+		update := func(t *rapid.T) {
+			if dead {
+				return
+			}
+			name := existing(t)
+			send(t, c15Req{Kind: "update", Name: name, Obj: c15GenUpdate(t, w, name)})
+		}
+		reparent := func(t *rapid.T) {
+			if dead {
+				return
+			}
+			names := vk.SortedKeys(w.model)
+			var withKids []string
+			for _, n := range names {
+				if len(w.children(n)) > 0 && n != c15Root {
+					withKids = append(withKids, n)
+				}
+			}
+			var name string
+			if len(withKids) > 0 && c15U(t, 4, "preferWithChildren") > 0 {
+				name = c15Pick(t, withKids, "target")
+			} else {
+				name = existing(t)
+			}
+			o := w.model[name].obj.DeepCopy()
+			if o.Labels == nil {
+				o.Labels = map[string]string{}
+			}
+			c15EditParent(t, w, name, o)
+			send(t, c15Req{Kind: "update", Name: name, Obj: o})
+		}
+		del := func(t *rapid.T) {
+			send(t, c15Req{Kind: "delete", Name: existing(t)})
+		}
+		pod := func(t *rapid.T) {
+			pods := vk.SortedKeys(w.pods)
+			if len(pods) > 0 && c15U(t, 3, "podDel") == 2 {
+				w.delPod(c15Pick(t, pods, "pod"))
+				return
+			}
+			ns := c15Pick(t, append(append([]string{"default"}, c15NSs...), c15Names...), "podNS")
+			q := ""
+			if c15U(t, 4, "podLabelled") > 0 {
+				q = c15Pick(t, c15Names, "podQuota")
+			}
+			w.addPod(ns, q)
+		}
+		// one action with explicit weights (rapid picks the actions of a map with a bias towards the first names)
+		kinds := []struct {
+			name string
+			fn   func(*rapid.T)
+		}{{"createUnder", createUnder}, {"createUnder", createUnder}, {"createUnder", createUnder}, {"create", create}, {"create", create},
+			{"update", update}, {"update", update}, {"update", update}, {"update", update},
+			{"reparent", reparent}, {"reparent", reparent}, {"reparent", reparent}, {"reparent", reparent},
+			{"delete", del}, {"delete", del}, {"pod", pod}}
 		t.Repeat(map[string]func(*rapid.T){
-			"create": func(t *rapid.T) {
+			"request": func(t *rapid.T) {
 				if dead {
 					return
 				}
-				o := c15GenCreate(t, w)
-				send(t, c15Req{Kind: "create", Name: o.Name, Obj: o})
-			},
-			"createSpecial": func(t *rapid.T) {
-				if dead {
-					return
+				k := c15Pick(t, kinds, "kind")
+				if len(w.model) == 0 && (k.name == "update" || k.name == "reparent" || k.name == "delete") {
+					k = kinds[3] // nothing stored yet: create instead
 				}
-				// the three objects the scheduler plugin creates itself (plugin_helper.go create*QuotaIfNotPresent)
-				var o *v1alpha1.ElasticQuota
-				switch rapid.IntRange(0, 2).Draw(t, "special") {
-				case 0:
-					o = c15NewObj(c15Root)
-					o.Labels[c15LIsParent], o.Labels[c15LAllowLent], o.Labels[c15LParent] = "true", "false", ""
-				case 1:
-					o = c15NewObj(c15System)
-					o.Labels = nil
-					o.Spec.Max = c15RL(map[string]int64{"cpu": 4000, "memory": 4000})
-				default:
-					o = c15NewObj(c15Default)
-					o.Labels = nil
-					o.Spec.Max = c15RL(map[string]int64{"cpu": 4000, "memory": 4000})
-				}
-				send(t, c15Req{Kind: "create", Name: o.Name, Obj: o})
-			},
-			"update": func(t *rapid.T) {
-				if dead {
-					return
-				}
-				name := existing(t)
-				send(t, c15Req{Kind: "update", Name: name, Obj: c15GenUpdate(t, w, name)})
-			},
-			"reparent": func(t *rapid.T) {
-				if dead {
-					return
-				}
-				names := vk.SortedKeys(w.model)
-				var withKids []string
-				for _, n := range names {
-					if len(w.children(n)) > 0 && n != c15Root {
-						withKids = append(withKids, n)
-					}
-				}
-				if len(names) == 0 {
-					t.Skip("nothing stored")
-				}
-				var name string
-				if len(withKids) > 0 && rapid.IntRange(0, 3).Draw(t, "preferWithChildren") > 0 {
-					name = rapid.SampledFrom(withKids).Draw(t, "target")
-				} else {
-					name = rapid.SampledFrom(names).Draw(t, "target")
-				}
-				o := w.model[name].obj.DeepCopy()
-				if o.Labels == nil {
-					o.Labels = map[string]string{}
-				}
-				c15EditParent(t, w, name, o)
-				send(t, c15Req{Kind: "update", Name: name, Obj: o})
-			},
-			"delete": func(t *rapid.T) {
-				if dead {
-					return
-				}
-				send(t, c15Req{Kind: "delete", Name: existing(t)})
-			},
-			"addPod": func(t *rapid.T) {
-				if dead {
-					return
-				}
-				ns := rapid.SampledFrom(append(append([]string{"default"}, c15NSs...), c15Names...)).Draw(t, "podNS")
-				q := ""
-				if rapid.IntRange(0, 3).Draw(t, "podLabelled") > 0 {
-					q = rapid.SampledFrom(c15Names).Draw(t, "podQuota")
-				}
-				w.addPod(ns, q)
-			},
-			"delPod": func(t *rapid.T) {
-				if dead {
-					return
-				}
-				pods := vk.SortedKeys(w.pods)
-				if len(pods) == 0 {
-					t.Skip("no pods")
-				}
-				w.delPod(rapid.SampledFrom(pods).Draw(t, "pod"))
+				k.fn(t)
 			},
 		})
 		w.classes(c)
@@ -1225,7 +1406,7 @@ func TestVerifC15History(t *testing.T) {
 			c.NonTrivial(w.hist)
 		}
 		if c.WantSample() {
-			c.Sample(map[string]any{"history": w.hist, "admitted": w.modelStr()})
+			c.Sample(map[string]any{"history": append([]string(nil), w.hist...), "admitted": w.modelStr()})
 		}
 	})
 }
@@ -1334,45 +1515,47 @@ func TestVerifC15Exhaustive(t *testing.T) {
 			}
 			return w
 		}
-		var enum func(prefix []c15Req)
-		enum = func(prefix []c15Req) {
-			w := build(prefix)
-			for i, r := range requests(w) {
-				if len(prefix) == 0 && i%shards != shard {
-					continue
-				}
-				c := rec.Begin()
-				acc, sig, msg := w.do(r)
-				c.Class(fmt.Sprintf("length-%d", len(prefix)+1))
-				c.ClassIf(withPod, "env-with-pod")
-				w.classes(c)
-				if w.reparentWithKidsAcc > 0 {
-					c.NonTrivial(w.hist)
-				}
-				if w.reparentWithKidsAcc > 0 && c.WantSample() {
-					c.Sample(map[string]any{"history": append([]string(nil), w.hist...)})
-				}
-				abandoned := false
-				if sig != "" {
-					abandoned = c.Violation(t, sig, "%s\nhistory:%s", msg, w.histStr())
-				}
-				c.End()
-				if acc {
-					if !abandoned && len(prefix)+1 < depth {
-						next := append(append([]c15Req(nil), prefix...), r)
-						enum(next)
+		// breadth first (all sequences of length L before any of length L+1), so the first violation reported is a shortest one
+		level := [][]c15Req{nil}
+		for d := 0; d < depth && len(level) > 0; d++ {
+			var next [][]c15Req
+			for _, prefix := range level {
+				w := build(prefix)
+				for i, r := range requests(w) {
+					if len(prefix) == 0 && i%shards != shard {
+						continue
 					}
-					w = build(prefix)
-				} else {
-					// rejected: the record was verified byte-identical; keep using this world, drop the history line
-					w.hist = w.hist[:len(w.hist)-1]
-					w.rejected[r.Kind]--
-					for k := range w.rejWhy {
-						delete(w.rejWhy, k)
+					c := rec.Begin()
+					acc, sig, msg := w.do(r)
+					c.Class(fmt.Sprintf("length-%d", len(prefix)+1))
+					c.ClassIf(withPod, "env-with-pod")
+					w.classes(c)
+					c.ClassIf(w.lastReparentAttemptWithKids, "last-request-is-parent-change-of-quota-with-children")
+					if w.lastReparentAttemptWithKids {
+						c.NonTrivial(w.hist)
+					}
+					if w.lastReparentAttemptWithKids && c.WantSample() {
+						c.Sample(map[string]any{"history": append([]string(nil), w.hist...)})
+					}
+					abandoned := false
+					if sig != "" {
+						abandoned = c.Violation(t, sig, "%s\nhistory:%s", msg, w.histStr())
+					}
+					c.End()
+					if acc {
+						if !abandoned && d+1 < depth {
+							next = append(next, append(append([]c15Req(nil), prefix...), r))
+						}
+						w = build(prefix)
+					} else {
+						// rejected: the record was verified byte-identical; keep using this world, drop the history line
+						// (the prefix of this world holds accepted requests only, so all "rejected" tallies go back to zero)
+						w.hist = w.hist[:len(w.hist)-1]
+						w.rejected, w.rejWhy, w.reparentRejected = map[string]int{}, map[string]int{}, 0
 					}
 				}
 			}
+			level = next
 		}
-		enum(nil)
 	}
 }
